@@ -1624,6 +1624,23 @@ pub fn increase_ix(rng: &mut Rng, la: &LiqAccounts, pool: &decode::Pool, lo: i32
                 }
                 _ => {}
             }
+            // a token B budget that the price distance divides exactly (budget x 2^64 is a multiple of the distance): the
+            // estimate's division has no remainder there
+            if rng.chance(1, 6) && pool.tick_current_index >= lo {
+                let (pl, pu) = (model::sqrt_price_of_tick(lo), model::sqrt_price_of_tick(hi));
+                let top = if pool.tick_current_index < hi { pool.sqrt_price.clamp(pl, pu) } else { pu };
+                let diff = top.saturating_sub(pl);
+                if diff > 0 {
+                    let odd = diff >> diff.trailing_zeros();
+                    let k = 1 + rng.below(1 << rng.below(20)) as u128;
+                    if let Some(b) = odd.checked_mul(k).filter(|b| *b <= u64::MAX as u128 && *b > 0) {
+                        mb = b as u64;
+                        if pool.tick_current_index >= hi || rng.chance(1, 2) {
+                            ma = u64::MAX;
+                        }
+                    }
+                }
+            }
             let (minp, maxp) = match rng.below(3) {
                 0 => (MIN_SQRT_PRICE, MAX_SQRT_PRICE),
                 1 => (pool.sqrt_price, pool.sqrt_price),
